@@ -539,18 +539,11 @@ func generate() {
 }
 
 func resultMsgs(name string) []msg {
-	marks = nil
 	var r []msg
-	// the builders draw from rng: build them one at a time so that the marks belong to one message
-	all := resultValid(name)
-	marks = nil
-	for i := range all {
-		i := i
-		_ = i
-	}
-	for _, b := range all {
+	for _, b := range resultValid(name) {
 		r = append(r, msg{b, nil})
 	}
+	marks = nil
 	return r
 }
 
